@@ -251,10 +251,26 @@ class LoadEngine(object):
         n_tries = t.draw(4)
         delay = [0.1, 0.01, 0.5][t.draw(3)]
         m.app_start_latency = delay * [0.0, 0.5, 0.9][t.draw(3)]
-        # free cores only
+        # idle cores - and, one load in four, also cores on which an earlier
+        # application is still running, paused or has finished without being
+        # stopped (never cores that are waiting: a core waiting under the
+        # same id cannot be told from a freshly loaded one by anybody)
+        busy_ok = ()
+        if t.draw(4) == 0:
+            busy_ok = (ST_RUN, 8, 10, 11)
+            for (x, y) in live:
+                ch_ = m.chips[(x, y)]
+                for p in range(1, len(ch_.cores)):
+                    if ch_.cores[p].state == ST_RUN and t.draw(3) == 0:
+                        ch_.cores[p].state = [8, 10, 11][t.draw(3)]
+                        ch_.sync_vcpu(p)
         free = [(x, y, p) for (x, y) in live
                 for p in range(1, len(m.chips[(x, y)].cores))
-                if m.chips[(x, y)].cores[p].state == ST_IDLE]
+                if m.chips[(x, y)].cores[p].state == ST_IDLE or
+                m.chips[(x, y)].cores[p].state in busy_ok]
+        if any(m.chips[(x, y)].cores[p].state != ST_IDLE
+               for (x, y, p) in free):
+            w.probe("targets_include_busy_cores")
         binaries = {}
         app_map = {}
         want = {}
